@@ -2,3 +2,7 @@ import VyxalModel.Proofs.C20
 import VyxalModel.Proofs.C03
 import VyxalModel.Proofs.C04
 import VyxalModel.Proofs.C05
+import VyxalModel.Proofs.C06
+import VyxalModel.Proofs.C02
+import VyxalModel.Proofs.C12
+import VyxalModel.Proofs.C18
